@@ -85,7 +85,11 @@ def run_duccio(case, ctx):
             # 0: they never contribute)
             p = 'above' if nm == names[0] else rng.choice(['above', 'below'])
         else:
-            p = rng.choice(['above', 'above', 'at', 'below'])
+            # (every schedule position is met with at least one violated constraint - otherwise the
+            # penalty is 0 whatever the schedule does there - except in a fifth of the cases, which
+            # keep the all-within-targets placements for the "zero iff" clause)
+            p = 'above' if (nm == names[0] and case['seed'] % 5 != 4) else \
+                rng.choice(['above', 'above', 'at', 'below'])
         c = {'above': t * (1 + 10 ** rng.uniform(-4, 1)), 'at': t,
              'below': t * rng.uniform(0.0, 0.999)}[p]
         targets[nm] = torch.tensor(t)
